@@ -345,9 +345,15 @@ Fixpoint forallb2 {A B} (f : A -> B -> bool) (l1 : list A) (l2 : list B) : bool 
     cleared) and [:855-892] (one time sample and, for a per-input kind, one
     count pushed per raw sample)). *)
 
-(** [Bencher::counter] / the counter given by the options: overwrite the first
-    entry or push one. *)
+(** [Bencher::counter] ([CounterCollection::set_counter], current code, after
+    commit 5377f60): replaces any existing counter of the kind, an input-based
+    one included. *)
 Definition set_counter (c : N) (ci : counter_in) : counter_in :=
+  {| ci_counts := [c]; ci_input := false |}.
+
+(** [set_counter] before 5377f60: overwrite the first entry or push one, the
+    input-based counter of the kind stays. *)
+Definition set_counter_old (c : N) (ci : counter_in) : counter_in :=
   match ci_counts ci with
   | _ :: r => {| ci_counts := c :: r; ci_input := ci_input ci |}
   | [] => {| ci_counts := [c]; ci_input := ci_input ci |}
@@ -398,6 +404,13 @@ Fixpoint kept_samples (kept : list (N * list N)) (rounds : list (bool * N * list
     per recorded sample, each the sum over that sample's inputs / sample size. *)
 Definition stored_counts_sb (ssize : N) (sample_sums : list N) (ci : counter_in) : bool :=
   ci_input ci && forallb2 (fun sum v => v =? (sum / ssize) mod 2 ^ 64) sample_sums (ci_counts ci).
+
+(** Specification for a kind whose last word was a constant counter [c]: one
+    stored count, not per-input; and for a kind without any counter. *)
+Definition constant_counter_sb (c : N) (ci : counter_in) : bool :=
+  negb (ci_input ci) && match ci_counts ci with [x] => x =? c | _ => false end.
+Definition no_counter_sb (ci : counter_in) : bool :=
+  negb (ci_input ci) && match ci_counts ci with [] => true | _ => false end.
 
 (** * Admissible sorted views *)
 
